@@ -233,6 +233,18 @@ def hostile_announcements(c12, rng):
                 out.append(("txt:%s:%s=%r" % (ty.split(".")[0], k, v), [svc(ty, txt, inst=inst)]))
         out.append(("port0:" + ty, [svc(ty, [kv("a", "b")], port=0)]))
         out.append(("no-txt-equals:" + ty, [svc(ty, [["justakey", None]])]))
+    # structurally odd (but decodable) answers: records owned by the bare service type, dangling
+    # pointers, sleep-proxy style port-0 services without instance name, SRV/TXT alone
+    for ty in ("_airplay._tcp.local", "_mediaremotetv._tcp.local", "_raop._tcp.local", "_companion-link._tcp.local"):
+        bare = c12.L(ty)
+        host = ["evilhost", "local"]
+        out.append(("bare-txt:" + ty, [{"src": hostile_ip, "msg": {"answers": [], "additional": [c12.rec_txt(bare, [kv("a", "b")])], "compress": False}}]))
+        out.append(("bare-txt-answer:" + ty, [{"src": hostile_ip, "msg": {"answers": [c12.rec_txt(bare, [kv("a", "b")])], "additional": [], "compress": False}}]))
+        out.append(("ptr-to-type:" + ty, [{"src": hostile_ip, "msg": {"answers": [c12.rec_ptr(ty, bare)], "additional": [], "compress": True}}]))
+        out.append(("bare-srv-port0:" + ty, [{"src": hostile_ip, "msg": {"answers": [c12.rec_ptr(ty, bare)], "additional": [c12.rec_srv(bare, 0, host), c12.rec_a(host, hostile_ip)], "compress": True}}]))
+        out.append(("srv-only:" + ty, [{"src": hostile_ip, "msg": {"answers": [], "additional": [c12.rec_srv(["x"] + bare, 0, host)], "compress": False}}]))
+        out.append(("dangling-ptr:" + ty, [{"src": hostile_ip, "msg": {"answers": [c12.rec_ptr(ty, ["ghost"] + bare)], "additional": [], "compress": False}}]))
+    out.append(("sleep-proxy-ptr", [{"src": hostile_ip, "msg": {"answers": [c12.rec_ptr(c12.SLEEP, ["70-35-60-63.1 evil"] + c12.L(c12.SLEEP))], "additional": [], "compress": False}}]))
     # odd instance names
     out.append(("raop-no-at", [svc("_raop._tcp.local", [kv("am", "AppleTV6,2")], inst="noatsign")]))
     # raw garbage from the hostile host
@@ -265,7 +277,7 @@ def discovery_dynamic(ctx):
         base = {c["address"]: c for c in base_obs}
         # rotate through the hostile announcements; every one is tried in at least one scenario, at two positions
         for hi, (hname, hd) in enumerate(hostile):
-            if not ctx.thorough and (hi % nscen) != si and not hname.startswith(("garbage", "ptr-loop", "huge", "ones", "trunc")):
+            if not ctx.thorough and (hi % nscen) != si and not hname.startswith(("garbage", "ptr-loop", "huge", "ones", "trunc", "bare", "srv-only", "dangling", "ptr-to", "sleep")):
                 continue
             for pos in sorted({0, len(good)} | ({rng.randrange(len(good) + 1)} if ctx.thorough else set())):
                 dg = good[:pos] + hd + good[pos:]
